@@ -430,6 +430,31 @@ theorem generated_protocol_ok (site : Site) (cs : List Str) (a b endPos : Nat) :
   rw [hp]
   by_cases h2 : endPos = 2 <;> by_cases h1 : endPos = 1 <;> by_cases h0 : endPos = 0 <;> simp [opNames, h0, h1, h2]
 
+/-- `usage_chunk_invariant_event` for the configurations the library really uses (no hypothesis on the stop
+    sequences or k left: `generated_sites_ok`) -/
+theorem usage_invariant_generated_event (site : Site) (hs : site ∈ generatedSites) (text : Str) (cs : List Str)
+    (a b endPos : Nat) (hflat : cs.flatten = text) (hne : ∀ c ∈ cs, c ≠ [])
+    (hend : endPos = 0 ∨ ((endPos = 1 ∨ endPos = 2) ∧ cs.drop (a + b) = []))
+    (hev : eventSetAt true site cs a = true) :
+    ∃ rest, dropTopK site.k none text = some rest ∧
+      deliveredItems (consumerItems (usageRun true true site cs a b endPos)) = spec site.cfg rest .llmEnd ∧
+      (usageRun true true site cs a b endPos).st.completion = spec site.cfg rest .llmEnd ∧
+      (usageRun true true site cs a b endPos).st.finished = true ∧
+      waiterReturn true site cs a = returned site.k text :=
+  usage_chunk_invariant_event site (generated_sites_ok.2 site hs).1 text cs a b endPos hflat hne hend hev
+
+/-- Why the protocol matters (*witness*, `decide`): `set_pattern` on a handler that is NOT buffering, after text
+    already went through it, is schedule-dependent — the same text `P:x"` with the same pattern gives `x` when the
+    pattern is set first and `P:x` (prefix left in) when one token slipped through before.  The library never does this: in the
+    single-call mode every token before `set_pattern` is buffered (`generated_protocol_ok`: `enable_buffering` comes
+    first), in the direct mode `set_pattern` precedes the LLM call (`generated_direct_protocol_ok`). -/
+theorem unbuffered_set_pattern_mid_stream_counterexample :
+    let p := "P:".toList
+    let q := "\"".toList
+    delivered (execOps true [Op.setPattern p q, Op.token "P:".toList, Op.token "x\"".toList, Op.llmEnd] H0).st = "x".toList ∧
+    delivered (execOps true [Op.token "P:".toList, Op.setPattern p q, Op.token "x\"".toList, Op.llmEnd] H0).st = "P:x".toList := by
+  decide
+
 /-- direct mode: `set_pattern` before the first token, the utterance pushed once more after the LLM call -/
 theorem generated_direct_protocol_ok (site : Site) (cs : List Str) (again : Str) :
     opNames (directOps site cs again) = NemoVerif.Generated.C18.directProtocol.filter (· != "llm_call") := by
